@@ -72,7 +72,7 @@ def oracle_linear(inp):
     # homogeneity far from unit amplitude (a weak field is still a field: nothing may be thresholded away, nothing may saturate)
     for sc in (1e-9, 3e6):
         ps = W.to_np(P(sc * u))
-        es = float(np.abs(ps - sc * pu).max() / max(1e-300, sc * np.abs(pu).max()))
+        es = float(np.abs(ps - sc * pu).max()) / max(1e-300, sc * float(np.abs(pu).max()))          # python floats: float32 / 1e-300 would be 0 / 0
         out.append(('homogeneity_extreme_scale', bool(np.isfinite(ps).all()) and es <= 4 * tol, '<= %g at scale %g' % (4 * tol, sc), es))
     z0 = W.to_np(P(np.zeros(shape, dtype=complex)))
     out.append(('zero_to_zero', float(np.abs(z0).max()) == 0.0, 0.0, float(np.abs(z0).max())))
